@@ -8,10 +8,6 @@ import (
 
 func osIntrinsic(fn *ssa.Function) intrinsicFn { return nil }
 
-func (in *Interp) regexMatchSym(re any, s Value) Value {
-	unsup("regexp match on symbolic string")
-	return nil
-}
 
 // minimal accepted input length per time layout (contract of package time, checked by selftest)
 var timeLayoutMinLen = map[string]int{
